@@ -116,6 +116,7 @@ type Factory struct {
 	vars []*T
 	ufs  map[string]*UFDecl
 	ufl  []*UFDecl
+	intMemo map[*T]*T
 }
 
 type UFDecl struct {
@@ -898,6 +899,13 @@ func (f *Factory) ibin(op Op, a, b *T) *T {
 		if o(b) {
 			return a
 		}
+		// floor(floor(x/c1)/c2) = floor(x/(c1*c2)) for positive constants
+		if b.IsConst() && b.Val.Sign() > 0 && a.Op == OIDiv && a.Args[1].IsConst() && a.Args[1].Val.Sign() > 0 {
+			return f.ibin(OIDiv, a.Args[0], f.IntConst(new(big.Int).Mul(a.Args[1].Val, b.Val)))
+		}
+	}
+	if op == OIMul && a.ID > b.ID {
+		a, b = b, a
 	}
 	return f.mk(op, Int, a, b)
 }
